@@ -8,8 +8,6 @@ package main
 import (
 	"fmt"
 
-	"github.com/scottyw/tetromino/gameboy/controller"
-
 	"verif/internal/rig"
 )
 
@@ -100,8 +98,11 @@ func polling(c *rig.Ctx) {
 						}
 					}
 					c.Count("polling_transfers_across_stop", 1)
-					m.Ctl.ButtonAction(controller.A, true)
-					m.CPU.OnInput()
+					c.Count("polling_transfers", 1)
+					c.Case(rig.Hash(uint64(i), uint64(page), r.U64()))
+					// (the rest of the program would poll OAM with no transfer running, which is
+					// the OAM bug's business, not this property's)
+					return
 				}
 			}
 			pcNow := int(m.CPU.XGetRegs().PC)
